@@ -430,10 +430,9 @@ def load_fragment(chk: core.Check) -> None:
         doc = json.load(open(FRAGMENT))
     except (OSError, ValueError):
         return
-    have = {e['id'] for e in chk.known}
-    for e in doc.get('findings', []):
-        if e['id'] not in have and PROP in e.get('properties', []):
-            chk.known.append(e)
+    # the fragment is authoritative for this property's findings (the merged file may lag behind a status change)
+    mine = {e['id']: e for e in doc.get('findings', []) if PROP in e.get('properties', [])}
+    chk.known[:] = [e for e in chk.known if e['id'] not in mine] + list(mine.values())
 
 
 def build_cases(chk: core.Check) -> typing.List[dict]:
